@@ -170,6 +170,11 @@ func (w *World) WaitIdle(d time.Duration, except ...string) bool {
 // ErrJobStuck: a released job neither parked at its next gate nor delivered its completion.
 var ErrJobStuck = errors.New("job stuck")
 
+// ErrPhantomWork: for the whole settle period the service reported a kind of background work as queued or running
+// although no job of that kind exists (none parked, none released and on its way): a queue that nothing will ever
+// take from, a running flag that nothing will ever clear.
+var ErrPhantomWork = errors.New("work without a job")
+
 var worlds sync.Map // *manager.Manager -> *World
 
 // UseWatchDir makes every world started afterwards watch <dir>/watch for dropped captures (the
@@ -531,6 +536,26 @@ func (w *World) Settle() error {
 				}
 				return true
 			})
+			// the service claims work of a kind of which no job is parked (no job is between two gates here: Step and
+			// the API calls return only after the released job has parked again or its completion was applied), and no
+			// job is parked that the service does not report: the flags / queues of the service are what is wrong
+			var phantom []string
+			spurious := false
+			w.mu.Lock()
+			for k, v := range want {
+				_, parked := w.parked[k]
+				if v && !parked {
+					phantom = append(phantom, k)
+				}
+				if !v && parked {
+					spurious = true
+				}
+			}
+			w.mu.Unlock()
+			sort.Strings(phantom)
+			if len(phantom) != 0 && !spurious && len(elsewhere) == 0 {
+				return fmt.Errorf("%w: for 20 s the service reports %v as queued / running (status %+v) while no such job exists (parked jobs: %v)", ErrPhantomWork, phantom, st, w.ParkedNames())
+			}
 			return fmt.Errorf("service did not settle: status %+v, parked %v; own manager %p, managers registered for this world %v %v", st, w.ParkedNames(), w.Mgr, mine, elsewhere)
 		}
 		time.Sleep(200 * time.Microsecond)
